@@ -321,7 +321,8 @@ def run_check(prop, tier, seed, replay=None):
     if not violations and tie_breaks and hb_ok and mb_ok and not replay:
         # a tie broke: search the implementation for a concrete input on which the property itself now fails
         # (more histories / other seeds through the same property oracles)
-        for attempt in range(1, 4):
+        # (VERIF_SEARCH_ATTEMPTS=0 skips the search - used only when re-running archived seeds in bulk)
+        for attempt in range(1, 1 + int(os.environ.get("VERIF_SEARCH_ATTEMPTS", "3"))):
             for h in spec.get("harness", []):
                 if violations:
                     break
